@@ -167,6 +167,7 @@ package callbacks
 //@   min-sites 4
 //@   let tracked = !restricted || (!stmt.SkipHooks && field.AutoUpdateTime > 0)
 //@   assert unselected-only-if-unrestricted-or-tracked-time: selectColumns[field.DBName] || (!has(selectColumns, field.DBName) && tracked) || (field.DBName == "" && (selectColumns[field.Name] || (!has(selectColumns, field.Name) && tracked))) [C10]
+//@   assert struct-field-grants-update: defined(isDiffSchema) ==> field.Updatable [C10]
 //@ immutable Statement.SkipHooks
 //@   writers gorm.(*DB).Session gorm.(*DB).getInstance gorm.(*Statement).clone gorm.(*DB).UpdateColumn gorm.(*DB).UpdateColumns gorm.(*DB).*
 //@   tags C10 C13
@@ -392,3 +393,12 @@ package callbacks
 //@   in callbacks.ConvertToAssignments
 //@   min-sites 3
 //@   assert record-has-the-key: !isZero [C09]
+
+//@ # ---------- C10: a column with a database default is written by Create only if Select/Omit admit it ----------
+//@ # ConvertToCreateValues adds such a column when a record carries a value for it; that happens only for columns
+//@ # that are selected, or not named while nothing restricts the selection (rvOfvalue is the value read for it).
+//@ site create-db-default-column-admitted
+//@   match storeelem interface{} | store Column.Name
+//@   in callbacks.ConvertToCreateValues
+//@   min-sites 10
+//@   assert admitted-by-select-and-omit: defined(rvOfvalue) ==> selectColumns[field.DBName] || (!has(selectColumns, field.DBName) && !restricted) [C10]
